@@ -27,6 +27,10 @@ CLAIMED["C12"]=("strict cross-multiplied threshold without division; prices assi
   "normal-form comparison rules, structured-dominance facts and role-typed id flow over type-checked AST; store effect summaries for the writer set", "4/C12")
 CLAIMED["C01"]=("symbolic delta algebra per ledger operation (transfers cancel; only deposit and positive NST adjustment increase; deposit/withdraw move deposit, withdrawable and staking total by one symbol); fixed set of direct writers of the ledger families; all arithmetic through the non-negativity-checked update helpers; withdraw/delegate preconditions",
   "symbolic delta-term extraction and cancellation over type-checked AST; SSA key-family resolver for the writer set", "4/C01")
+CLAIMED["C02"]=("share delta balance (TotalShare and delegator share move by one symbol, OperatorShare iff associated), delegator-list maintenance with the shares incl. the slash-to-zero branch, rounding direction and last-share / dust rules",
+  "symbolic delta-term extraction + structured-dominance facts over type-checked AST", "4/C02")
+CLAIMED["C03"]=("no operator-state gate on the exit path; three-index symmetry and delete/re-date/set order; single deletion site, current-height lookup with separator, hold gate, per-record cache context; completion height formula and past-height rejection; index-key freshness; EndBlock order of hold release vs read; pending aggregates via the C01 delta algebra",
+  "call-graph reachability (negative who-may-call), sibling agreement of key constructors, structured-dominance facts, effect-derived module order", "4/C03")
 NA={}
 def main():
     checks=[]
